@@ -450,27 +450,69 @@ def run(ctx: Ctx):
 def parafac2_o4(ctx: Ctx):
     repo, res = ctx.repo, ctx.res
     f = repo.func(D + "_parafac2.parafac2")
-    # (a) nn branch uses non_negative_parafac_hals with nn_modes=nn_modes
-    hals_calls = []
-    for g in f.nested_all.get("parafac_updates", []):
-        for c in own_scope_nodes(g.node):
-            if isinstance(c, ast.Call) and call_name(c) == "non_negative_parafac_hals":
-                hals_calls.append((g, c))
-    res.instance("O4-PARAFAC2", "parafac2: inner solver under nn_modes", sample={"calls": [src(c)[:80] for _, c in hals_calls]})
-    if not hals_calls:
-        ctx.finding("O4-PARAFAC2", f, f.node, "with nn_modes given PARAFAC2 no longer delegates the inner CP updates to non_negative_parafac_hals", construct="parafac_updates (nn branch)")
+    # (a) which inner solver updates the CP factors, decided per path: the driver is explored once with
+    # `nn_modes is None` true and once false; local helpers are followed through the `def` that is bound on
+    # that path (two definitions under an if / else, or two helpers chosen between)
+    from ..cfg import build_cfg
+    from ..explore import Explorer
+
+    nested = {id(h.node): h for hs in f.nested_all.values() for h in hs}
+
+    def solver_calls(fn_node, depth=0):
+        out = []
+        for c in ast.walk(fn_node):
+            if isinstance(c, ast.Call) and call_name(c) in ("non_negative_parafac_hals", "parafac"):
+                out.append(c)
+        return out
+
+    class Rule:
+        def __init__(self):
+            self.seen = []
+
+        def init_state(self):
+            return frozenset()
+
+        def transfer(self, node, st, ex):
+            a = node.ast
+            if a is None:
+                return st
+            if node.kind == "stmt" and isinstance(a, ast.FunctionDef):
+                return frozenset((n, i) for n, i in st if n != a.name) | {(a.name, id(a))}
+            if node.kind in ("stmt", "return") and not isinstance(a, (ast.FunctionDef, ast.ClassDef)):
+                bound = dict(st)
+                for c in ast.walk(a):
+                    if isinstance(c, ast.Call) and isinstance(c.func, ast.Name) and c.func.id in bound and node.loop is not None:
+                        d = nested.get(bound[c.func.id])
+                        if d is not None:
+                            for sc in solver_calls(d.node):
+                                self.seen.append((d, sc))
+                    elif isinstance(c, ast.Call) and call_name(c) in ("non_negative_parafac_hals", "parafac") and node.loop is not None:
+                        self.seen.append((f, c))
+            return st
+
+    results = {}
+    for label, val in (("nn_modes given", False), ("nn_modes None", True)):
+        rule = Rule()
+        g_ = build_cfg(f.node, f.qname)
+        ex = Explorer(g_, rule, entry_valuation={"nn_modes is None": val}, track="all", max_states=400_000).run()
+        if ex.truncated:
+            raise AnalysisError("O4-PARAFAC2: path exploration of parafac2 exceeded the state budget")
+        results[label] = rule.seen
+    hals_calls = [(g, c) for g, c in results["nn_modes given"] if call_name(c) == "non_negative_parafac_hals"]
+    other_given = [(g, c) for g, c in results["nn_modes given"] if call_name(c) == "parafac"]
+    res.instance("O4-PARAFAC2", "parafac2: inner solver under nn_modes", sample={"calls": sorted({src(c)[:80] for _, c in hals_calls})})
+    if not hals_calls or other_given:
+        ctx.finding("O4-PARAFAC2", f, f.node, "with nn_modes given PARAFAC2 no longer delegates the inner CP updates to non_negative_parafac_hals" + (" on every path (the unconstrained solver is reachable)" if hals_calls else ""), construct="parafac_updates (nn branch)")
+    done = set()
     for g, c in hals_calls:
+        if id(c) in done:
+            continue
+        done.add(id(c))
         a = kwarg(c, "nn_modes")
         if not is_name(a, "nn_modes"):
             ctx.finding("O4-PARAFAC2", g, c, f"nn_modes is not forwarded to non_negative_parafac_hals (got {src(a) if a is not None else 'the default'})", construct=f"{src(c)[:80]} nn_modes")
-    # the choice between the two closures is made on `nn_modes is None`
-    ok_sel = False
-    for s in own_scope_nodes(f.node):
-        if isinstance(s, ast.If) and src(s.test) == "nn_modes is None":
-            then_defs = [x for x in s.body if isinstance(x, ast.FunctionDef) and x.name == "parafac_updates"]
-            else_defs = [x for x in s.orelse if isinstance(x, ast.FunctionDef) and x.name == "parafac_updates"]
-            if then_defs and else_defs and any(isinstance(c, ast.Call) and call_name(c) == "non_negative_parafac_hals" for c in ast.walk(else_defs[0])):
-                ok_sel = True
+    none_calls = results["nn_modes None"]
+    ok_sel = bool(none_calls) and all(call_name(c) == "parafac" for _, c in none_calls) and bool(hals_calls) and not other_given
     res.instance("O4-PARAFAC2", "parafac2: solver selection on `nn_modes is None`", sample={"ok": ok_sel})
     if not ok_sel:
         ctx.finding("O4-PARAFAC2", f, f.node, "the non-negative inner solver is not selected exactly when nn_modes is given", construct="selection of parafac_updates")
